@@ -15,7 +15,7 @@ CHUNK = 6
 
 
 def plan(ctx):
-    n = ctx.n(2500, 60000)
+    n = ctx.n(7000, 150000)
     return [('case', engine.stable_hash((ctx.seed, 'c07', i))) for i in range(n)]
 
 
